@@ -8,7 +8,13 @@ cmd = base["cmd"].replace("<file>", path)
 if len(sys.argv) > 1:   # a scratch worktree / copy of the repository: import urllib3 from there
     cmd = cmd.replace("cd /repo", "cd " + sys.argv[1])
     env["PYTHONPATH"] = os.path.join(sys.argv[1], "src")
-p = subprocess.run(cmd, shell=True, env=env, stdout=subprocess.PIPE, stderr=subprocess.STDOUT, text=True)
+import signal
+pr = subprocess.Popen(cmd, shell=True, env=env, stdout=subprocess.PIPE, stderr=subprocess.STDOUT, text=True, start_new_session=True)
+try:
+    pr.communicate(timeout=int(os.environ.get("BASELINE_TIMEOUT") or 1800))
+except subprocess.TimeoutExpired:   # pytest sometimes never exits (leaked server threads); the junit file is complete by then
+    os.killpg(pr.pid, signal.SIGKILL)
+    print("baseline: pytest did not exit in time; killed, using the junit file written so far")
 passed = set()
 try:
     for tc in ET.parse(path).getroot().iter("testcase"):
